@@ -493,6 +493,25 @@ fn any_shape(pos: &Position) -> Shape {
     })
 }
 
+/// The type error in the body of a function that is applied to the elements
+/// of a list which has at least one.
+fn callback_fault(func_shape: &Shape, target_shape: &Shape) -> Option<Shape> {
+    let has_elements = matches!(
+        target_shape,
+        Shape::List(NarrowedShape {
+            types: NarrowingShape::Narrowed(types),
+            ..
+        }) if !types.is_empty()
+    );
+    match func_shape {
+        Shape::Func(fdef) if has_elements => match fdef.ret.as_ref() {
+            err @ Shape::TypeErr(_, _) => Some(err.clone()),
+            _ => None,
+        },
+        _ => None,
+    }
+}
+
 fn derive_func_op_shape(def: &FuncOpDef, symbol_table: &mut BTreeMap<Rc<str>, Shape>) -> Shape {
     match def {
         FuncOpDef::Map(MapFilterOpDef { func, target, pos }) => {
@@ -504,6 +523,11 @@ fn derive_func_op_shape(def: &FuncOpDef, symbol_table: &mut BTreeMap<Rc<str>, Sh
             // target must be a list, tuple or string
             match iter_target(&target_shape) {
                 Some(IterTarget::List) => {
+                    // A fault in the function is reported where it is, as it
+                    // is for a direct call, when the function is sure to run.
+                    if let Some(err) = callback_fault(&func_shape, &target_shape) {
+                        return err;
+                    }
                     // Return type is List(func.ret)
                     match &func_shape {
                         Shape::Func(fdef) => Shape::List(NarrowedShape::new_with_pos(
@@ -531,14 +555,17 @@ fn derive_func_op_shape(def: &FuncOpDef, symbol_table: &mut BTreeMap<Rc<str>, Sh
         }
         FuncOpDef::Filter(MapFilterOpDef { func, target, pos }) => {
             let target_shape = target.derive_shape(symbol_table);
-            let _func_shape = func.derive_shape(symbol_table);
+            let func_shape = func.derive_shape(symbol_table);
             if let Shape::TypeErr(_, _) = target_shape {
                 return target_shape;
             }
             // target must be a list, tuple or string
             match iter_target(&target_shape) {
                 // filtering a list or string keeps its type
-                Some(IterTarget::List) => target_shape,
+                Some(IterTarget::List) => match callback_fault(&func_shape, &target_shape) {
+                    Some(err) => err,
+                    None => target_shape,
+                },
                 Some(IterTarget::Str) => Shape::Str(pos.clone()),
                 // Filtering a tuple can remove any of its fields.
                 Some(IterTarget::Tuple) | Some(IterTarget::Unknown) => any_shape(pos),
